@@ -781,7 +781,10 @@ class VarsManager(object):
         for name in self.complex_vars:
             self.std_polar(name)
 
-    def standard_complex(self):
+    def standard_complex(self, constrained=()):
+        """
+        :param constrained: names of parameters with an extra constraint term (e.g. a Gaussian constraint), which is not periodic in the phase nor even in the modulus
+        """
         for k, v in self.complex_vars.items():
             ## TODO complex with constrains
             if isinstance(v, list):
@@ -789,6 +792,8 @@ class VarsManager(object):
             if not v:
                 continue
             has_constrains = False
+            if k + "r" in constrained or k + "i" in constrained:
+                has_constrains = True
             for i in self.same_list:
                 if k + "r" in i or k + "i" in i:
                     has_constrains = True
